@@ -72,6 +72,10 @@ SNIPPETS = [
     ('int-minimum-literal', 'out int n;\nparser { "a"; n = -2147483648; }', False),
     ('int-huge-literal', 'out int n;\nparser { "a"; n = 99999999999999999999; }', False),
     ('char-const-escape', "out int n;\nparser { \"a\"; n = '\\z'; }", False),
+    ('cond-break-and-finish', 'parser { loop { /[abc]/; if $last == 97 { break; } elif $last == 98 { finish; } } "x"; }', False),
+    ('cond-named-break-and-finish-code', 'finishcode F;\nparser { loop outer { loop { /[abc]/; if $last == 97 { break outer; } elif $last == 98 { finish F; } else { break; } } "y"; } "x"; }', False),
+    ('cond-append-and-finish', 'out str[3] s;\nparser { try { loop { /[ab]/; if $last == 97 { s += [$last]; } else { finish; } } } catch (outofspace) { "z"; } }', False),
+    ('cond-yield-and-break', 'yieldcode Y;\nparser { loop { /[ab]/; if $last == 97 { yield Y; } else { break; } } "x"; }', False),
     ('shift-chain', 'out int n;\nparser { "a"; n = [(1 << 2) << 3]; }', False),
 ]
 
@@ -79,7 +83,7 @@ SNIPPETS = [
 def edge_programs(rng, n_random):
     items = []
     for name, src, must in SNIPPETS:
-        args = ['-O1']
+        args = ['-O1'] + (['-fyield-support'] if 'yield' in name and 'without' not in name else [])
         items.append(('edge:' + name, src, args, must))
     # random mutations of well-formed generated programs: rename a referenced name, drop a declaration, change a width
     for i in range(n_random):
